@@ -170,6 +170,9 @@ func (t *PageTree) loadPages() error {
 
 	// Start recursive traversal from root
 	if err := t.traversePageNode(t.root, nil, make(map[int]bool), 0); err != nil {
+		// Keep no partial page list: a repeated call must fail the same way instead of
+		// answering from the pages collected before the error.
+		t.pages = nil
 		return fmt.Errorf("failed to traverse page tree: %w", err)
 	}
 
